@@ -16,5 +16,6 @@ assert hasattr(sys, 'monitoring')
 print('setup: python', sys.version.split()[0], 'kernpy at', kernpy.__file__)
 PY
 /venv/bin/python selftest/simfs_vs_real.py 120
+SIMKIT_NO_REEXEC=1 /venv/bin/python selftest/simfs_symlinks.py
 /venv/bin/python selftest/determinism.py --smoke
 echo "setup: ok"
